@@ -100,25 +100,29 @@ func (a c09BAtom) roots() []string {
 func (g c09BGuard) roots() []string { return append(g.Lhs.roots(), g.Rhs.Atom.roots()...) }
 
 type c09BScan struct {
-	g        *genCtx
-	rel      string
-	fn       string
-	generic  map[string]bool // names of generic functions / types (an index expression on them is an instantiation)
-	typeName map[string]bool // type names of the package, type parameters, predeclared types
-	mapType  map[string]bool // named map types of the package
-	mapField map[string]int  // struct field name -> +1 per map-typed declaration, -1000 per other declaration
-	mapVar   map[string]bool // package-level variables of map type
-	locals   []map[string]ast.Expr
-	alias    map[string]ast.Expr // locals defined once as a qualified constant / integer literal and never assigned again
-	pkgConst map[string]int64    // package-level integer constants of the package (`const maxLen = 1024`)
-	loops    []map[string]string // enclosing loops of the current function (innermost last): assigned variable -> inc | dec | other
-	probe    map[string]*c09Probe
-	sites    []c09BSite
-	maps     [][2]string
+	g          *genCtx
+	rel        string
+	fn         string
+	generic    map[string]bool         // names of generic functions / types (an index expression on them is an instantiation)
+	typeName   map[string]bool         // type names of the package, type parameters, predeclared types
+	mapType    map[string]bool         // named map types of the package
+	mapField   map[string]int          // struct field name -> +1 per map-typed declaration, -1000 per other declaration
+	mapVar     map[string]bool         // package-level variables of map type
+	commaOkIdx map[*ast.IndexExpr]bool // index expressions in comma-ok form (`v, ok := m[k]`): the operand is a map
+	locals     []map[string]ast.Expr
+	alias      map[string]ast.Expr // locals defined once as a qualified constant / integer literal and never assigned again
+	pkgConst   map[string]int64    // package-level integer constants of the package (`const maxLen = 1024`)
+	loops      []map[string]string // enclosing loops of the current function (innermost last): assigned variable -> inc | dec | other
+	probe      map[string]*c09Probe
+	sites      []c09BSite
+	maps       [][2]string
 }
 
 var c09StdMapTypes = map[string]bool{"url.Values": true, "http.Header": true, "textproto.MIMEHeader": true}
-var c09StdMapFields = map[string]bool{"Header": true, "Form": true, "PostForm": true, "Trailer": true}
+var c09StdMapFields = map[string]bool{"Header": true, "Form": true, "PostForm": true, "Trailer": true, "ExtraHeaders": true}
+
+// c09AllCalls: every static call edge (caller, callee) among the library's functions, as collected by the last bound-site scan
+var c09AllCalls = map[[2]string]bool{}
 var c09Predeclared = map[string]bool{"string": true, "int": true, "int8": true, "int16": true, "int32": true, "int64": true, "uint": true, "uint8": true,
 	"uint16": true, "uint32": true, "uint64": true, "bool": true, "byte": true, "rune": true, "any": true, "error": true, "float32": true, "float64": true, "uintptr": true, "_": true}
 
@@ -865,7 +869,8 @@ func (sc *c09BScan) expr(e ast.Node, facts []c09BGuard) {
 			if sc.generic[lastName(v.X)] || sc.isTypeExpr(v.Index) {
 				return false // an instantiation F[T]
 			}
-			if sc.isMapOperand(v.X) {
+			if sc.isMapOperand(v.X) || sc.commaOkIdx[v] || isStringLit(v.Index) {
+				// (`v, ok := m[k]` and an index that is a string literal exist for maps only)
 				sc.maps = append(sc.maps, [2]string{sc.fn, render(sc.g.fset, v)})
 				return true
 			}
@@ -1402,6 +1407,24 @@ func c09BoundSites(g *genCtx) (sites []c09BSite, skipped []string, maps [][2]str
 				continue
 			}
 			sc.rel = rel
+			sc.commaOkIdx = map[*ast.IndexExpr]bool{}
+			ast.Inspect(f, func(n ast.Node) bool {
+				switch v := n.(type) {
+				case *ast.AssignStmt:
+					if len(v.Lhs) == 2 && len(v.Rhs) == 1 {
+						if ix, ok := v.Rhs[0].(*ast.IndexExpr); ok {
+							sc.commaOkIdx[ix] = true
+						}
+					}
+				case *ast.ValueSpec:
+					if len(v.Names) == 2 && len(v.Values) == 1 {
+						if ix, ok := v.Values[0].(*ast.IndexExpr); ok {
+							sc.commaOkIdx[ix] = true
+						}
+					}
+				}
+				return true
+			})
 			// import names of the library's own packages: alias -> package directory name
 			libImport := map[string]string{}
 			for _, im := range f.Imports {
@@ -1540,7 +1563,13 @@ func c09BoundSites(g *genCtx) (sites []c09BSite, skipped []string, maps [][2]str
 		}
 	}
 	sort.Slice(calls, func(i, j int) bool { return calls[i][0]+" "+calls[i][1] < calls[j][0]+" "+calls[j][1] })
+	c09AllCalls = allCalls
 	return
+}
+
+func isStringLit(e ast.Expr) bool {
+	bl, ok := e.(*ast.BasicLit)
+	return ok && bl.Kind == token.STRING
 }
 
 func c09BoundFacts(g *genCtx) string {
@@ -1552,7 +1581,7 @@ func c09BoundFacts(g *genCtx) string {
 		for _, gd := range s.Guards {
 			gs = append(gs, gd.lean())
 		}
-			var cs []string
+		var cs []string
 		for _, c := range s.Carried {
 			cs = append(cs, "("+leanStr(c[0])+", "+leanStr(c[1])+")")
 		}
